@@ -13,6 +13,8 @@ def impl_predicates(pid, lines, iobs):
     """Property predicates on the implementation's own output (independent of
     the model's algorithms).  Returns a list of disagreement dicts."""
     out = []
+    if pid == "C19":
+        out += term_predicates(lines, iobs)
     names = {}     # edge name -> (table at definition, line)
     for i, ln in enumerate(lines, 1):
         t = ln.split()
@@ -35,6 +37,51 @@ def impl_predicates(pid, lines, iobs):
         elif t[0] in ("copyedge", "assign"):
             if t[2] in names:
                 names[t[1]] = names[t[2]]
+    return out
+
+
+def term_predicates(lines, iobs):
+    """C19 predicates on the implementation's own codec output"""
+    out = []
+    W = 1 << 30
+    seen = {}    # handle -> rounded pattern (reals)
+    for i, ln in enumerate(lines, 1):
+        t = ln.split()
+        if len(t) < 3 or t[0] != "term":
+            continue
+        ob = iobs.get(i)
+        if ob is None:
+            continue
+        if t[1] == "int":
+            v = int(t[2])
+            if -W <= v <= W - 1:
+                m = re.match(r"term int h=(-?\d+) back=(-?\d+)", ob)
+                ok = bool(m) and int(m.group(2)) == v and int(m.group(1)) <= 0 and \
+                    ((int(m.group(1)) == 0) == (v == 0))
+                if not ok:
+                    out.append(dict(kind="pred-int-codec", line=i, input=v, impl=ob))
+            elif ob != "ERR VALUE_OVERFLOW":
+                out.append(dict(kind="pred-int-overflow", line=i, input=v, impl=ob))
+        elif t[1] == "real":
+            b = int(t[2], 16)
+            m = re.match(r"term real h=(-?\d+) back=([0-9a-f]+)", ob)
+            if not m:
+                out.append(dict(kind="pred-real-codec", line=i, input=t[2], impl=ob))
+                continue
+            h, back = int(m.group(1)), int(m.group(2), 16)
+            iszero = (b & 0x7ffffffe) == 0     # +-0.0 after dropping the last mantissa bit
+            want = 0 if iszero else (b & 0xfffffffe)
+            if back != want or h > 0:
+                out.append(dict(kind="pred-real-roundtrip", line=i, input=t[2], impl=ob,
+                                expected="%08x" % want))
+            # zero is the unique transparent handle: h == 0 iff the decoded value is +-0
+            if (h == 0) != ((back & 0x7fffffff) == 0):
+                out.append(dict(kind="pred-real-zero-unique", line=i, input=t[2], impl=ob,
+                                note="non-zero handle decodes to +-0.0 (or zero handle to non-zero)"))
+            if h != 0:
+                if h in seen and seen[h] != want:
+                    out.append(dict(kind="pred-real-injective", line=i, input=t[2], impl=ob))
+                seen[h] = want
     return out
 
 
@@ -97,6 +144,19 @@ PROPS = {
         level_note=_MODELLED + "EV targets/sources tied at table level only."),
 }
 
+PROPS["C19"] = dict(
+    gens=[("codec", gen.gen_C19, 1.0)], quick=6, thorough=120, uses_gen=True,
+    rule="one script = ~2500 codec queries: boundary integers, all 512 sign/exponent classes with mantissa "
+         "corner patterns, denormals, infinities, NaNs, random 32-bit patterns; distinct_nontrivial counts "
+         "distinct (kind,input) queries whose handle is not 0",
+    level_text="Proved over the definitions REGENERATED from src/terminal.h on every run (clang AST -> Gallina): "
+               "round trip, injectivity, zero handle, non-positive handles and overflow rejection for all "
+               "integers, all 2^32 float patterns and both booleans. Tie: translator + the extracted generated "
+               "functions run against terminal::getHandle/setFromHandle on boundary and random values.",
+    level_note="Trusted: tools/cxx2v.py and clang's AST dump (cross-checked by the correspondence run); "
+               "double->float conversion of rangeval and forest::termprec rounding are outside the codec model; "
+               "EV+/EV* edge values are covered through C03-style scripts only.")
+
 NOT_APPLICABLE = {}
-for _p in ["C02", "C06", "C07", "C08", "C09", "C11", "C12", "C13", "C14", "C15", "C16", "C17", "C18", "C19", "C20"]:
+for _p in ["C02", "C06", "C07", "C08", "C09", "C11", "C12", "C13", "C14", "C15", "C16", "C17", "C18", "C20"]:
     NOT_APPLICABLE[_p] = "check under construction in this session (model and correspondence stream not registered yet)"
